@@ -7,5 +7,5 @@ export CARGO_NET_OFFLINE=true
 if [ -f tools/gen_consts.py ]; then python3 tools/gen_consts.py; fi
 # a second attempt continues where a timed-out first one stopped (loaded machine)
 (cd coq && coq_makefile -f _CoqProject -o Makefile >/dev/null 2>&1 && { timeout 3000 make -j16 >/dev/null 2>&1 || timeout 3000 make -j16 2>&1 | tail -30; } && timeout 600 make -j16 >/dev/null 2>&1) || { echo "setup: Coq build failed"; exit 1; }
-(cd harness && cargo build --offline 2>&1 | tail -3)
+(cd harness && cargo build --offline $(python3 ../tools/harness_features.py) 2>&1 | tail -3)
 echo setup done
